@@ -53,6 +53,9 @@ def run_plan(case):
                 if tracefs.clear_flaky():
                     res["open"] = "fault-raised"
                     return res
+            if case.get("may_reject"):
+                res["open"] = "rejected-ok"  # an input the format does not admit (a required field blank): refusing it is fine
+                return res
             res["open"] = f"error:{type(e).__name__}: {str(e)[:200]}"
             return res
         if fo and fs == "vtrace":
